@@ -44,7 +44,7 @@ CFG = {
     ]] + [T + "tie_" + t for t in TIES] + [T + "tie_body_" + t for t in CTORS] + [T + n for n in [
         "C10_src_init_total", "C10_src_init_idempotent", "C10_src_init_frame",
         "C10_datum_frame", "C10_datum_pure", "C10_datum_history",
-        "C10_mem_refines_partial", "C10_mem_refines_nil",
+        "C10_mem_refines", "C10_mem_refines_flat", "C10_mem_refines_nil", "C10_mem_vertices",
     ]],
     "trusted_base": [
         "Lean 4.33.0 kernel; axioms of every theorem printed by #print axioms must be within {propext, Classical.choice, Quot.sound}",
